@@ -405,6 +405,18 @@ func (e *Env) ident(name string) EVal {
 	if v, ok := e.lookupVar(name); ok {
 		return v
 	}
+	// name$captured: the captured variable of that name (when a local shadows it)
+	if strings.HasSuffix(name, "$captured") && e.fr != nil {
+		base := strings.TrimSuffix(name, "$captured")
+		for _, fv := range e.fr.Fn.FreeVars {
+			if fv.Name() == base {
+				bv := e.fr.Vals[fv]
+				el := derefType(fv.Type())
+				return EVal{T: u.load(e.st, bv.T, el), Ty: el}
+			}
+		}
+		efail("no captured variable %q", base)
+	}
 	// local variable of the current frame
 	if e.fr != nil {
 		if a := localAlloc(e.fr.Fn, name); a != nil {
